@@ -269,6 +269,6 @@ impl Prop for Malformed {
 
 pub fn run(env: &mut Env) {
     let t = env.thorough();
-    env.run_random::<TextForms>(if t { 10_000_000 } else { 500_000 });
-    env.run_random::<Malformed>(if t { 5_000_000 } else { 300_000 });
+    env.run_random::<TextForms>(if t { 10_000_000 } else { 1_500_000 });
+    env.run_random::<Malformed>(if t { 5_000_000 } else { 1_000_000 });
 }
